@@ -77,6 +77,13 @@ def run(ctx):
         m = re.search(r"=\s*\[([^\]]*)\]", extra[0])
         if m:
             ctx.cov["model_table_sizes"] = m.group(1).replace("%N", "").strip()
+    if not quick:
+        rc, out = vlib.sh("timeout 2400 coqchk -silent -o -Q . PT PT.Props.C18", cwd=vlib.COQ, timeout=2500)
+        ok = rc == 0 and "Axioms: <none>" in re.sub(r"\s+", " ", out)
+        ctx.cov["coqchk"] = "ok, no axioms" if ok else out[-400:]
+        if not ok:
+            ctx.report("C18:coqchk", "coqchk does not accept Props/C18.vo axiom-free: %s" % out[-300:],
+                       dict(obligation="coqchk"), found_input=False)
     if fails:
         diags = vlib.run_diag("C18", PRE, CT, [cases[i] for i in fails[:8]], "diag_all")
         spec_hits = []
